@@ -212,6 +212,11 @@ func documentedCIRange(it Item) bool {
 func ClassMatch(items []Item, c rune, ci bool) (match, unspecified bool) {
 	for _, it := range items {
 		if it.Lo <= c && c <= it.Hi {
+			if ci && it.Lo != it.Hi && !documentedCIRange(it) {
+				// a case-insensitive range whose bounds are of different case: whether the
+				// range as written is tested at all is not documented (see below)
+				continue
+			}
 			return true, false
 		}
 	}
@@ -235,7 +240,7 @@ func ClassMatch(items []Item, c rune, ci bool) (match, unspecified bool) {
 			continue
 		}
 		in := func(x rune) bool { return it.Lo <= x && x <= it.Hi }
-		variants := in(unicode.ToLower(c)) || in(unicode.ToUpper(c))
+		variants := in(c) || in(unicode.ToLower(c)) || in(unicode.ToUpper(c))
 		if folded != variants {
 			unspecified = true
 			continue
